@@ -173,7 +173,15 @@ def gen_labware(rng, n=None, big=False):
 
 def gen_wl(rng):
     mv = rng.choice(["950", "950", "200", "50", "1000", "12.5", "950.5", "7"])
-    return {"max_volume": mv, "max_int": "." not in mv and rng.random() < 0.5, "auto_split": rng.random() < 0.8, "diti_mode": rng.random() < 0.2}
+    wl = {"max_volume": mv, "max_int": "." not in mv and rng.random() < 0.5, "auto_split": rng.random() < 0.8, "diti_mode": rng.random() < 0.2}
+    r = rng.random()
+    if r < 0.12:
+        # the options given as numpy scalars / truthy ints instead of Python float / bool
+        wl["max_np"] = rng.choice(["int64", "int32", "0d"] if wl["max_int"] else ["float32", "float64", "0d"])
+    elif r < 0.2:
+        wl["diti_repr"] = rng.choice(["int", "npbool"])
+        wl["diti_mode"] = rng.random() < 0.7
+    return wl
 
 
 def shape_wells(rng, wells):
@@ -517,7 +525,57 @@ def gen_dtype_program(rng):
     return {"dev": "evo", "wl": wl, "labware": specs, "ops": ops, "family": "dtype"}
 
 
+
+def gen_wide_program(rng):
+    """labware whose well ids have different lengths (column 100 and beyond next to a small plate): id arrays must not be
+    truncated to the other labware's id width"""
+    small = {"kind": "plate", "name": "src", "rows": 2, "cols": 3, "min": "0", "max": "1000", "init": {"shape": "scalar", "v": "500"}}
+    cols = rng.choice([100, 101, 120])
+    wide = {"kind": "plate", "name": "wide", "rows": 2, "cols": cols, "min": "0", "max": "1000", "init": None}
+    order = rng.random() < 0.5
+    specs = [small, wide] if order else [wide, small]
+    ks, kw_ = (0, 1) if order else (1, 0)
+    wl = {"max_volume": "950", "max_int": False, "auto_split": True, "diti_mode": False}
+    far = [wid(r, c) for r in range(2) for c in (cols - 1, cols - 2, 99, 9, 0)]
+    ops = []
+    for _ in range(3):
+        d = rng.sample(far, rng.choice([1, 2, 3]))
+        sw = [wid(rng.randrange(2), rng.randrange(3)) for _ in d]
+        vols = [fs(rng.choice([3, 5, 10, 12])) for _ in d]
+        ops.append({"op": "transfer", "src": ks, "swells": {"shape": "list", "v": sw}, "dst": kw_, "dwells": {"shape": "list", "v": d},
+                    "vols": {"shape": "list", "v": vols}, "label": "to the far columns", "ws": 1})
+    back = rng.sample(far, 2)
+    ops.append({"op": "dispense", "lw": kw_, "wells": {"shape": "list", "v": back}, "vols": {"shape": "scalar", "v": "20"}, "label": None, "kw": None})
+    ops.append({"op": "transfer", "src": kw_, "swells": {"shape": "list", "v": back}, "dst": ks, "dwells": {"shape": "list", "v": ["A01", "B03"]},
+                "vols": {"shape": "scalar", "v": "7"}, "label": "back", "ws": "flush"})
+    return {"dev": "evo", "wl": wl, "labware": specs, "ops": ops, "family": "wide"}
+
+
+def gen_dilute_program(rng):
+    """serial dilutions over many orders of magnitude (1 : 1024 per step): tiny fractions are still components"""
+    rows, cols = 2, 4
+    plate = {"kind": "plate", "name": rng.choice(["plate", "DWP-2"]), "rows": rows, "cols": cols, "min": "0", "max": "2000", "init": {"shape": "2d", "v": [["1024", "1023", "1023", "1023"], ["1024", "1023", "1023", "1023"]]},
+             "names": {"A01": "stock", "B01": "dye"}}
+    tr = {"kind": "trough", "name": "water", "vrows": 2, "cols": 1, "min": "0", "max": "100000", "init": {"shape": "scalar", "v": "50000"}}
+    specs = [plate, tr]
+    wl = {"max_volume": rng.choice(["950", "200"]), "max_int": False, "auto_split": True, "diti_mode": False}
+    ops = []
+    for c in range(cols - 1):
+        ops.append({"op": "transfer", "src": 0, "swells": {"shape": "list", "v": [wid(0, c), wid(1, c)]}, "dst": 0,
+                    "dwells": {"shape": "list", "v": [wid(0, c + 1), wid(1, c + 1)]}, "vols": {"shape": "scalar", "v": "1"}, "label": f"1:1024 step {c + 1}", "ws": 1})
+    # pass the most dilute wells on once more, and top up with water
+    ops.append({"op": "transfer", "src": 1, "swells": {"shape": "list", "v": ["A01", "B01"]}, "dst": 0, "dwells": {"shape": "list", "v": [wid(0, cols - 1), wid(1, cols - 1)]},
+                "vols": {"shape": "scalar", "v": "100"}, "label": "top up", "ws": 1})
+    ops.append({"op": "transfer", "src": 0, "swells": {"shape": "list", "v": [wid(0, cols - 1)]}, "dst": 0, "dwells": {"shape": "list", "v": [wid(1, cols - 1)]},
+                "vols": {"shape": "list", "v": ["64"]}, "label": "merge", "ws": 1})
+    return {"dev": "evo", "wl": wl, "labware": specs, "ops": ops, "family": "dilute"}
+
+
 def gen_program(rng, family, nops=None):
+    if family == "wide":
+        return gen_wide_program(rng)
+    if family == "dilute":
+        return gen_dilute_program(rng)
     if family == "drain":
         return gen_drain_program(rng)
     if family == "dtype":
